@@ -169,17 +169,8 @@ func Parse(repo string) (*Tables, error) {
 		t.Scan[k] = []string{}
 	}
 	impSet := map[string]bool{}
-	for i, f := range p.Syntax {
-		t.Files = append(t.Files, filepath.Base(p.CompiledGoFiles[i]))
-		for _, im := range f.Imports {
-			path, _ := strconv.Unquote(im.Path.Value)
-			impSet[path] = true
-			switch path {
-			case "math/rand", "math/rand/v2", "time", "sync", "sync/atomic", "os", "crypto/rand", "runtime", "unsafe":
-				note("badimport", im, path)
-			}
-		}
-		// package-level tables
+	// package-level integer tables of every file first (by name; code below may refer to any of them)
+	for _, f := range p.Syntax {
 		for _, d := range f.Decls {
 			gd, ok := d.(*ast.GenDecl)
 			if !ok || gd.Tok != token.VAR {
@@ -199,6 +190,17 @@ func Parse(repo string) (*Tables, error) {
 				}
 			}
 		}
+	}
+	for i, f := range p.Syntax {
+		t.Files = append(t.Files, filepath.Base(p.CompiledGoFiles[i]))
+		for _, im := range f.Imports {
+			path, _ := strconv.Unquote(im.Path.Value)
+			impSet[path] = true
+			switch path {
+			case "math/rand", "math/rand/v2", "time", "sync", "sync/atomic", "os", "crypto/rand", "runtime", "unsafe":
+				note("badimport", im, path)
+			}
+		}
 		// literals inside code, and the determinism scan
 		for _, d := range f.Decls {
 			fd, ok := d.(*ast.FuncDecl)
@@ -206,7 +208,7 @@ func Parse(repo string) (*Tables, error) {
 				continue
 			}
 			fname := fd.Name.Name
-			var nbr, idxs, tris []interface{}
+			var idxs, tris []interface{}
 			ast.Inspect(fd.Body, func(n ast.Node) bool {
 				switch x := n.(type) {
 				case *ast.GoStmt:
@@ -245,15 +247,9 @@ func Parse(repo string) (*Tables, error) {
 					}
 				case *ast.CompositeLit:
 					if fname == "generateTriangles" {
-						if se, ok := x.Type.(*ast.SelectorExpr); ok && se.Sel.Name == "Vec" {
-							if id, ok := se.X.(*ast.Ident); ok && id.Name == "v3i" {
-								if v, err := lit(x); err == nil {
-									nbr = append(nbr, v)
-								}
-							}
-						}
-						// &sdf.Triangle3{vertices[k0], vertices[k1.bufIndex], vertices[k3.bufIndex]}
-						if se, ok := x.Type.(*ast.SelectorExpr); ok && se.Sel.Name == "Triangle3" {
+						// sdf.Triangle3{vertices[k0], vertices[k1.bufIndex], vertices[k3.bufIndex]}, with the type
+						// written out, behind & or elided inside a []*sdf.Triangle3{...} literal
+						if isTriangle3(p.TypesInfo.TypeOf(x)) {
 							var tri []interface{}
 							for _, el := range x.Elts {
 								ie, ok := el.(*ast.IndexExpr)
@@ -296,6 +292,10 @@ func Parse(repo string) (*Tables, error) {
 			})
 			switch fname {
 			case "generateTriangles":
+				nbr, err := v2Neighbours(p, fd, t.Vals)
+				if err != nil {
+					return nil, err
+				}
 				add("dcV2NeighbourOffsets", nbr)
 				add("dcV2TriangleOrder", tris)
 			case "dcContourProcessEdge":
@@ -480,7 +480,369 @@ func Parse(repo string) (*Tables, error) {
 			return nil, fmt.Errorf("dctab: table %s not found in render/dc (source restructured: the translator must be adapted)", n)
 		}
 	}
+	// the index patterns read out of code must have the shape the model expects; a table of another
+	// shape would be ill-typed Coq, so it is reported here as a translator that needs adapting
+	for n, want := range map[string][]int{"dcV2NeighbourOffsets": {9, 3}, "dcV2TriangleOrder": {2, 3}, "dcV1ProcessEdgeOrder": {12}, "dcFaceProcOrders": {2, 4}} {
+		if got, ok := dims(t.Vals[n]); !ok || fmt.Sprint(got) != fmt.Sprint(want) {
+			return nil, fmt.Errorf("dctab: %s read from the code has shape %v, expected %v (source restructured: the translator must be adapted)", n, got, want)
+		}
+	}
 	return t, nil
+}
+
+// dims returns the dimensions of a rectangular nested table.
+func dims(v interface{}) ([]int, bool) {
+	l, ok := v.([]interface{})
+	if !ok {
+		return nil, true
+	}
+	var sub []int
+	for i, x := range l {
+		d, ok := dims(x)
+		if !ok || (i > 0 && fmt.Sprint(d) != fmt.Sprint(sub)) {
+			return nil, false
+		}
+		sub = d
+	}
+	return append([]int{len(l)}, sub...), true
+}
+
+func isTriangle3(t types.Type) bool {
+	if t == nil {
+		return false
+	}
+	if pt, ok := t.(*types.Pointer); ok {
+		t = pt.Elem()
+	}
+	nt, ok := t.(*types.Named)
+	return ok && nt.Obj().Name() == "Triangle3"
+}
+
+// ---- generateTriangles: the neighbour cells of a far edge
+
+type pev struct {
+	p      *packages.Package
+	tables map[string]interface{}
+	env    map[types.Object]interface{}
+	ks     map[string]interface{}
+}
+
+func (e *pev) obj(id *ast.Ident) types.Object {
+	if o := e.p.TypesInfo.Uses[id]; o != nil {
+		return o
+	}
+	return e.p.TypesInfo.Defs[id]
+}
+
+// eval evaluates an expression made of constants, known locals, the integer tables, indexing, the
+// fields X, Y, Z of a vector and integer / boolean operators.
+func (e *pev) eval(x ast.Expr) (interface{}, bool) {
+	if tv, ok := e.p.TypesInfo.Types[x]; ok && tv.Value != nil {
+		switch tv.Value.Kind() {
+		case constant.Int:
+			v, ok := constant.Int64Val(tv.Value)
+			return v, ok
+		case constant.Bool:
+			return constant.BoolVal(tv.Value), true
+		}
+		return nil, false
+	}
+	switch y := x.(type) {
+	case *ast.ParenExpr:
+		return e.eval(y.X)
+	case *ast.Ident:
+		o := e.obj(y)
+		if o == nil {
+			return nil, false
+		}
+		if v, ok := e.env[o]; ok {
+			return v, true
+		}
+		if vr, ok := o.(*types.Var); ok && vr.Parent() == e.p.Types.Scope() {
+			v, ok := e.tables[y.Name]
+			return v, ok
+		}
+	case *ast.CompositeLit:
+		v, err := lit(y)
+		return v, err == nil
+	case *ast.IndexExpr:
+		a, ok1 := e.eval(y.X)
+		i, ok2 := e.eval(y.Index)
+		l, ok3 := a.([]interface{})
+		k, ok4 := i.(int64)
+		if ok1 && ok2 && ok3 && ok4 && k >= 0 && int(k) < len(l) {
+			return l[k], true
+		}
+	case *ast.SelectorExpr:
+		a, ok := e.eval(y.X)
+		l, isl := a.([]interface{})
+		if ok && isl {
+			if k := strings.Index("XYZ", y.Sel.Name); k >= 0 && len(y.Sel.Name) == 1 && k < len(l) {
+				return l[k], true
+			}
+		}
+	case *ast.CallExpr:
+		if tv, ok := e.p.TypesInfo.Types[y.Fun]; ok && tv.IsType() && len(y.Args) == 1 {
+			if v, ok := e.eval(y.Args[0]); ok {
+				if _, isInt := v.(int64); isInt {
+					return v, true
+				}
+			}
+		}
+	case *ast.UnaryExpr:
+		v, ok := e.eval(y.X)
+		if !ok {
+			return nil, false
+		}
+		switch b := v.(type) {
+		case bool:
+			if y.Op == token.NOT {
+				return !b, true
+			}
+		case int64:
+			if y.Op == token.SUB {
+				return -b, true
+			}
+		}
+	case *ast.BinaryExpr:
+		a, ok1 := e.eval(y.X)
+		b, ok2 := e.eval(y.Y)
+		if !ok1 || !ok2 {
+			return nil, false
+		}
+		if p, ok := a.(bool); ok {
+			q, ok := b.(bool)
+			if !ok {
+				return nil, false
+			}
+			switch y.Op {
+			case token.LAND:
+				return p && q, true
+			case token.LOR:
+				return p || q, true
+			case token.EQL:
+				return p == q, true
+			case token.NEQ:
+				return p != q, true
+			}
+			return nil, false
+		}
+		p, ok := a.(int64)
+		q, ok2 := b.(int64)
+		if !ok || !ok2 {
+			return nil, false
+		}
+		switch y.Op {
+		case token.EQL:
+			return p == q, true
+		case token.NEQ:
+			return p != q, true
+		case token.LSS:
+			return p < q, true
+		case token.LEQ:
+			return p <= q, true
+		case token.GTR:
+			return p > q, true
+		case token.GEQ:
+			return p >= q, true
+		case token.ADD:
+			return p + q, true
+		case token.SUB:
+			return p - q, true
+		case token.MUL:
+			return p * q, true
+		case token.AND:
+			return p & q, true
+		case token.OR:
+			return p | q, true
+		case token.SHL:
+			if q >= 0 && q < 63 {
+				return p << uint(q), true
+			}
+		case token.SHR:
+			if q >= 0 && q < 63 {
+				return p >> uint(q), true
+			}
+		}
+	}
+	return nil, false
+}
+
+// lookupOffset recognises infoI[cellIndex.Add(X)] and returns X.
+func lookupOffset(x ast.Expr) (ast.Expr, bool) {
+	ie, ok := x.(*ast.IndexExpr)
+	if !ok {
+		return nil, false
+	}
+	c, ok := ie.Index.(*ast.CallExpr)
+	if !ok || len(c.Args) != 1 {
+		return nil, false
+	}
+	se, ok := c.Fun.(*ast.SelectorExpr)
+	if !ok || se.Sel.Name != "Add" {
+		return nil, false
+	}
+	return c.Args[0], true
+}
+
+func isK(name string) bool { return name == "k1" || name == "k2" || name == "k3" }
+
+func assignsK(n ast.Node) bool {
+	found := false
+	ast.Inspect(n, func(m ast.Node) bool {
+		if as, ok := m.(*ast.AssignStmt); ok {
+			for _, l := range as.Lhs {
+				if id, ok := l.(*ast.Ident); ok && isK(id.Name) {
+					found = true
+				}
+			}
+		}
+		return true
+	})
+	return found
+}
+
+func (e *pev) exec(list []ast.Stmt) error {
+	for _, s := range list {
+		switch x := s.(type) {
+		case *ast.AssignStmt:
+			if len(x.Rhs) == 1 && len(x.Lhs) >= 1 {
+				if id, ok := x.Lhs[0].(*ast.Ident); ok {
+					if off, isLookup := lookupOffset(x.Rhs[0]); isLookup && isK(id.Name) {
+						v, ok := e.eval(off)
+						if !ok {
+							return fmt.Errorf("dctab: generateTriangles: the cell offset of %s cannot be evaluated (source restructured: the translator must be adapted)", id.Name)
+						}
+						e.ks[id.Name] = v
+						continue
+					}
+				}
+			}
+			for i, l := range x.Lhs {
+				id, ok := l.(*ast.Ident)
+				if !ok || id.Name == "_" {
+					continue
+				}
+				if isK(id.Name) {
+					return fmt.Errorf("dctab: generateTriangles: %s is assigned something other than infoI[cellIndex.Add(offset)] (source restructured: the translator must be adapted)", id.Name)
+				}
+				o := e.obj(id)
+				if o == nil {
+					continue
+				}
+				delete(e.env, o)
+				if len(x.Lhs) == len(x.Rhs) && (x.Tok == token.DEFINE || x.Tok == token.ASSIGN) {
+					if v, ok := e.eval(x.Rhs[i]); ok {
+						e.env[o] = v
+					}
+				}
+			}
+		case *ast.BlockStmt:
+			if err := e.exec(x.List); err != nil {
+				return err
+			}
+		case *ast.IfStmt:
+			if x.Init == nil {
+				if c, ok := e.eval(x.Cond); ok {
+					if b, isb := c.(bool); isb {
+						if b {
+							if err := e.exec(x.Body.List); err != nil {
+								return err
+							}
+						} else if x.Else != nil {
+							if err := e.exec([]ast.Stmt{x.Else}); err != nil {
+								return err
+							}
+						}
+						continue
+					}
+				}
+			}
+			if assignsK(x) {
+				return fmt.Errorf("dctab: generateTriangles: k1..k3 are assigned under a condition that does not depend on the edge number only (source restructured: the translator must be adapted)")
+			}
+		case *ast.ForStmt, *ast.RangeStmt, *ast.SwitchStmt:
+			if assignsK(x) {
+				return fmt.Errorf("dctab: generateTriangles: k1..k3 are assigned inside a nested loop or switch (source restructured: the translator must be adapted)")
+			}
+		}
+	}
+	return nil
+}
+
+// v2Neighbours evaluates, for every far edge (value of the loop variable of the edge loop of
+// generateTriangles), the offsets X of the three lookups k1, k2, k3 = infoI[cellIndex.Add(X)]:
+// written as literals under an if-chain on the edge number, or read from a table indexed by it.
+func v2Neighbours(p *packages.Package, fd *ast.FuncDecl, tables map[string]interface{}) ([]interface{}, error) {
+	bad := func(what string) ([]interface{}, error) {
+		return nil, fmt.Errorf("dctab: generateTriangles: %s (source restructured: the translator must be adapted)", what)
+	}
+	var loop ast.Stmt
+	ast.Inspect(fd.Body, func(n ast.Node) bool {
+		switch x := n.(type) {
+		case *ast.ForStmt:
+			if assignsK(x.Body) {
+				loop = x // the innermost such loop wins
+			}
+		case *ast.RangeStmt:
+			if assignsK(x.Body) {
+				loop = x
+			}
+		}
+		return true
+	})
+	if loop == nil {
+		return bad("no loop assigns k1, k2, k3")
+	}
+	far, ok := tables["dcFarEdges"].([]interface{})
+	if !ok {
+		return bad("dcFarEdges is missing")
+	}
+	out := []interface{}{}
+	for ai := 0; ai < len(far); ai++ {
+		e := &pev{p: p, tables: tables, env: map[types.Object]interface{}{}, ks: map[string]interface{}{}}
+		var body *ast.BlockStmt
+		switch x := loop.(type) {
+		case *ast.ForStmt:
+			init, ok := x.Init.(*ast.AssignStmt)
+			if !ok || init.Tok != token.DEFINE || len(init.Lhs) != 1 {
+				return bad("the edge loop has no counter")
+			}
+			id, ok := init.Lhs[0].(*ast.Ident)
+			if !ok {
+				return bad("the edge loop has no counter")
+			}
+			e.env[e.obj(id)] = int64(ai)
+			body = x.Body
+		case *ast.RangeStmt:
+			id, ok := x.Key.(*ast.Ident)
+			if !ok || id.Name == "_" {
+				return bad("the edge loop has no index variable")
+			}
+			e.env[e.obj(id)] = int64(ai)
+			if x.Value != nil {
+				if vid, ok := x.Value.(*ast.Ident); ok && vid.Name != "_" {
+					if tv, ok := e.eval(x.X); ok {
+						if l, ok := tv.([]interface{}); ok && ai < len(l) {
+							e.env[e.obj(vid)] = l[ai]
+						}
+					}
+				}
+			}
+			body = x.Body
+		}
+		if err := e.exec(body.List); err != nil {
+			return nil, err
+		}
+		for _, k := range []string{"k1", "k2", "k3"} {
+			v, ok := e.ks[k]
+			if !ok {
+				return bad(fmt.Sprintf("%s is not assigned for edge %d", k, ai))
+			}
+			out = append(out, v)
+		}
+	}
+	return out, nil
 }
 
 func recvTypeName(fd *ast.FuncDecl) string {
